@@ -152,6 +152,16 @@ pub fn inject_extras(s: &mut Src, g: &G) -> (G, bool) {
             *e = E::Seq(vec![old, used]);
         }
     }
+    // the grammar itself defines <_> (only an *undefined* <_> is exempt from warnings)
+    if s.chance(1, 6) && !g.defs().any(|(n, _, _)| n == "_") {
+        let pos = s.below(g.stmts.len() + 1);
+        if s.bool() {
+            g.stmts.insert(pos, Stmt::Def { name: "_".into(), shell: None, e: lit("underscore") });
+        } else {
+            let sh = *s.pick(&SH);
+            g.stmts.insert(pos, Stmt::Def { name: "_".into(), shell: Some(sh.to_string()), e: E::Cmd(format!("underscore_{sh}")) });
+        }
+    }
     // a built-in name specialised for some shells only: the others keep the built-in meaning (no warning)
     if s.chance(1, 3) {
         let name = s.pick(&["PATH", "DIRECTORY"]).to_string();
